@@ -30,6 +30,7 @@ func runC10(c *Ctx) {
 	ruleWritesUnderWatch(c, p, roles, "C10.write-watched")
 	ruleTimeoutSource(c, p, "C10.timeout-source")
 	ruleDialClose(c, p, "C10.dialclose")
+	ruleDialUnderContext(c, p, "C10.dial-ctx")
 	ruleNoLeak(c, p, roles, "C10.leak")
 	ruleHandshakeWatchdog(c, p)
 	rulePacketDeadline(c, p, "C10.deadline")
